@@ -9,9 +9,10 @@ trap 'git -C /repo checkout -- . 2>/dev/null' EXIT INT TERM
 ids=("$@"); [ ${#ids[@]} -gt 0 ] || ids=($(ls seeded | grep '^C[0-9]'))
 : > seeded/sweep.jsonl.tmp
 for s in "${ids[@]}"; do
-  owner=${s:0:3}
+  owner=${s:0:3}; tried=""
   git -C /repo apply --whitespace=nowarn /verif/seeded/$s/patch.diff || { echo "$s: apply failed"; continue; }
-  for p in $owner C17; do
+  for p in $owner C17 C14; do
+    [ "$p" = "$owner" ] && [ -n "${tried:-}" ] && continue
     R=$(mktemp -d /tmp/seedrep.XXXXXX)
     t0=$(date +%s)
     out=$(VERIF_STALL_LIMIT=400s VERIF_REPLAYS=$R VERIF_EVIDENCE=$R timeout 2400 ./vsim check $p ${SWEEP_ARGS:-} 2>&1); rc=$?
@@ -25,8 +26,8 @@ print(json.dumps({"seed":sys.argv[1],"check":sys.argv[2],"exit":int(sys.argv[3])
 PY
     rm -rf $R
     echo "$s via $p exit=$rc"
+    tried=1
     [ $rc = 1 ] && break
-    [ $p = C17 ] && break
   done
   git -C /repo checkout -- .
 done
